@@ -709,3 +709,93 @@ def run_faults(ctx):
     for (line, impl, desc), ans in zip(reqs, answers):
         _cmp(ctx, "dsf file operations", desc, ans, impl)
     return ncases
+
+
+# ---------------------------------------------------------------------------------------------------
+# load as a program (C06): `loadEntry` of lean/MutagenModel/Model/Container/DsfLoadM.lean against DSF(fileobj)
+
+def _load_layouts(rng):
+    out = [(k, d) for k, d, _ in _small_layouts(rng)]
+    base = dict(fmt=fmt_chunk(rng), data=b"data" + q(12 + 5) + rbytes(rng, 5), tag=b"")
+    v1 = b"TAG" + b"title".ljust(30, b"\0") + b"artist".ljust(30, b"\0") + b"album".ljust(30, b"\0") + b"1999" + b"c".ljust(29, b"\0") + b"\x01\x0c"
+    good = b"ID3\x04\x00\x00" + syncsafe(14) + b"TIT2" + syncsafe(2) + b"\0\0" + b"\x03o" + b"\0\0"
+    for name, tag in [("tag+v1", good + v1), ("v1-at-pointer", v1), ("no-id3+v1", b"junkjunkjunk" + v1), ("bad-version+v1", b"ID3\x07\x00\x00" + syncsafe(3) + b"abc" + v1),
+                      ("tag+v1-126", good + v1[:93] + v1[95:]), ("tag+apetag", good + b"x" * 99 + b"APETAGEX" + b"y" * 24),
+                      ("tag+TAG-too-far", good + b"TAG" + b"z" * 130), ("ext24+v1", b"ID3\x04\x00\x40" + syncsafe(12) + bytes([0, 0, 0, 6, 1, 0, 0, 0, 0, 0, 0, 0]) + v1),
+                      ("ext-too-big", b"ID3\x04\x00\x40" + syncsafe(6) + bytes([0, 0, 0, 12]) + bytes(8)),
+                      ("unsynch", b"ID3\x03\x00\x80" + syncsafe(4) + b"\xff\x00\xe0\x00")]:
+        out.append((name, render(dict(base, tag=tag))))
+    out.append(("empty", b""))
+    out.append(("tiny", render(base)[:30]))
+    return out
+
+
+def run_load_faults(ctx):
+    """real DSF(fileobj) on FaultFile vs `dsf op=loadm`: every fault index, every read cut to 0 / 1 / n//2 bytes;
+    outcome class, what was loaded (no tags / ID3v1 only / ID3v2), call log, position, file untouched, not closed"""
+    from fobj import FaultFile
+    from mutagen import dsf
+    rng = ctx.rng
+    layouts = _load_layouts(rng)
+    if ctx.quick:
+        layouts = rng.sample(layouts, 12)
+    reqs = []
+    ncases = 0
+
+    def go(f):
+        return timed(lambda: dsf.DSF(f), 20)
+
+    def kind_of(k, r):
+        if k != "ok":
+            return None
+        if r.tags is None:
+            return "none"
+        return "v1only" if r.tags.version == (1, 1) else "tag"
+    for name, data in layouts:
+        ref = FaultFile(data)
+        k0, r0 = go(ref)
+        plans = [dict()] + [dict(fail_at=i) for i in range(ref.calls)]
+        for i, l in enumerate(ref.log):
+            if l[0] == "r" and int(l[1:]) > 0:
+                for short in sorted({0, 1, int(l[1:]) // 2}):
+                    plans.append(dict(short=(i, short)))
+        for p in plans:
+            f = FaultFile(data, **p)
+            k, r = go(f)
+            desc = dict(kind=name, op="load", env=dict(p) or "clean", data=hx(data) if len(data) < 700 else "len=%d" % len(data))
+            if k == "hang":
+                ctx.violation("dsf:load:hang", "did not finish", desc); continue
+            line = "dsf op=loadm data=%s" % hx(data) + ("" if "fail_at" not in p else " fail=%d:io" % p["fail_at"]) + \
+                ("" if "short" not in p else " short=%d:%d" % p["short"])
+            reqs.append((line, _state(f, _outcome(k, r)), kind_of(k, r), desc))
+            ncases += 1
+            ctx.case(key=("dsf-load-faults", name, repr(sorted(p.items()))), nontrivial=bool(p), modelled=True)
+            ctx.hist["dsf-load:" + _outcome(k, r)] += 1
+            # the statements: only MutagenError (or verify_fileobj's ValueError at one of its two read(0) calls);
+            # the file is untouched and not closed
+            if k == "exc" and classify(r) != "err mutagen" and not (classify(r) == "err value" and p.get("fail_at") in (0, 7)):
+                ctx.violation("dsf:load:escape:" + type(r).__name__, "%s escaped from DSF(fileobj)" % type(r).__name__, desc)
+            if f.getvalue() != data:
+                ctx.violation("dsf:load:writes", "load changed the file", desc)
+            if f.closed_called:
+                ctx.violation("dsf:load:closes-caller-file", "close() was called on the caller's file object", desc)
+            # a short read that is taken for "no tag here": the load succeeds and sees less than the clean load
+            if k == "ok" and "short" in p and k0 == "ok" and kind_of(k, r) != kind_of(k0, r0):
+                ctx.hist["dsf-load:short-read-changes-result:%s->%s at %s" % (kind_of(k0, r0), kind_of(k, r), ref.log[p["short"][0]])] += 1
+    answers = ask_model(ctx, [r[0] for r in reqs]) if reqs else None
+    if answers is None:
+        ctx.notes.append("dsf_tie.run_load_faults: model driver unavailable, tie skipped")
+        return ncases
+    if any(a == "bad-op" for a in answers):
+        ctx.notes.append("dsf_tie.run_load_faults: the driver does not know `dsf op=loadm` yet; tie skipped")
+        return ncases
+    for (line, impl, kind, desc), ans in zip(reqs, answers):
+        mk = None
+        if ans.startswith("ok kind="):
+            v = ans.split(" ")[1][5:]
+            mk = {"notag": "none", "nov2": "none"}.get(v, v.split(":")[0])
+            ans = "ok " + ans.split(" ", 2)[2]
+        _cmp(ctx, "dsf load", desc, ans, impl)
+        if mk != kind:
+            ctx.disagree("dsf load: what was loaded", desc, model=str(mk), impl=str(kind))
+    return ncases
